@@ -347,3 +347,141 @@ impl<F: std::io::Write> std::io::Write for Counter<F> {
         self.stream.flush()
     }
 }
+
+/// Verification hooks: an event sink that is a no-op unless a harness installs it.
+///
+/// Only compiled with `--cfg flac_codec_verif`.
+#[cfg(flac_codec_verif)]
+pub mod verif {
+    use std::sync::Mutex;
+    use std::sync::atomic::{AtomicU64, Ordering};
+
+    /// One recorded event
+    #[derive(Debug, Clone, PartialEq, Eq)]
+    pub enum Event {
+        /// first statement of `Encoder::encode`
+        EncodeBegin {
+            /// samples written before this frame
+            samples_before: u64,
+            /// length of this frame in PCM frames
+            pcm_frames: u64,
+            /// bytes emitted by the frame writer so far
+            bytes_so_far: u64,
+        },
+        /// first statement of `Encoder::finalize_inner` (when not yet finalized)
+        FinalizeBegin {
+            /// bytes emitted by the frame writer so far
+            bytes_so_far: u64,
+            /// samples written so far
+            samples_written: u64,
+        },
+        /// which SEEKTABLE layout case finalize took
+        FinalizeBranch {
+            /// "refill", "carve", "carve-noroom" or "none"
+            branch: &'static str,
+        },
+        /// a parallelisable task started
+        TaskStart {
+            /// "subframe", "fixed" or "lpc"
+            kind: &'static str,
+            /// identity of the cache the task owns
+            key: usize,
+            /// per-thread id
+            thread: u64,
+        },
+        /// a parallelisable task ended
+        TaskEnd {
+            /// "subframe", "fixed" or "lpc"
+            kind: &'static str,
+            /// identity of the cache the task owns
+            key: usize,
+            /// per-thread id
+            thread: u64,
+        },
+    }
+
+    static SINK: Mutex<Option<Vec<Event>>> = Mutex::new(None);
+    static PERTURB: AtomicU64 = AtomicU64::new(0);
+    static NEXT_THREAD: AtomicU64 = AtomicU64::new(1);
+
+    thread_local! {
+        static THREAD_ID: u64 = NEXT_THREAD.fetch_add(1, Ordering::Relaxed);
+    }
+
+    /// Installs (and clears) the global sink
+    pub fn install() {
+        *SINK.lock().unwrap_or_else(|e| e.into_inner()) = Some(Vec::new());
+    }
+
+    /// Removes the sink and returns what it recorded
+    pub fn take() -> Vec<Event> {
+        SINK.lock()
+            .unwrap_or_else(|e| e.into_inner())
+            .take()
+            .unwrap_or_default()
+    }
+
+    /// Sets the schedule perturbation seed (0 = no perturbation)
+    pub fn set_perturb(seed: u64) {
+        PERTURB.store(seed, Ordering::Relaxed);
+    }
+
+    /// Records one event if a sink is installed
+    pub fn emit(e: Event) {
+        if let Some(v) = SINK.lock().unwrap_or_else(|e| e.into_inner()).as_mut() {
+            v.push(e);
+        }
+    }
+
+    fn perturb() {
+        let s = PERTURB.load(Ordering::Relaxed);
+        if s != 0 {
+            // xorshift step shared by all threads: which thread draws which
+            // number is itself schedule dependent, which is the point
+            let mut x = s;
+            x ^= x << 13;
+            x ^= x >> 7;
+            x ^= x << 17;
+            PERTURB.store(x | 1, Ordering::Relaxed);
+            match x % 4 {
+                0 => {}
+                1 => std::thread::yield_now(),
+                2 => {
+                    for _ in 0..(x >> 8) % 2000 {
+                        std::hint::spin_loop();
+                    }
+                }
+                _ => std::thread::sleep(std::time::Duration::from_micros((x >> 8) % 50)),
+            }
+        }
+    }
+
+    /// Emits `TaskStart` now and `TaskEnd` when dropped
+    pub struct TaskGuard {
+        kind: &'static str,
+        key: usize,
+    }
+
+    /// Marks the body of a parallelisable task
+    pub fn task_guard(kind: &'static str, key: usize) -> TaskGuard {
+        perturb();
+        emit(Event::TaskStart {
+            kind,
+            key,
+            thread: THREAD_ID.with(|t| *t),
+        });
+        perturb();
+        TaskGuard { kind, key }
+    }
+
+    impl Drop for TaskGuard {
+        fn drop(&mut self) {
+            perturb();
+            emit(Event::TaskEnd {
+                kind: self.kind,
+                key: self.key,
+                thread: THREAD_ID.with(|t| *t),
+            });
+        }
+    }
+}
